@@ -334,5 +334,9 @@ def applyRule (c : Cfg F) (lang : String) (now : Now) (vs : Vars F) (fn : RuleFn
       some (.item (.number (fs.foldl (fun acc kv => match kv.2.tok with
         | some (.item (.number v _)) => Num.add acc v | _ => acc) (Num.ofInt 0)) .decimal))
     | .coin v cur => (assoc? c.currencies cur).map (fun ci => .item (.money v ci.code))
+    | .when f w v =>
+      match (fs.get? f).bind (·.tok) with
+      | some (.text s) => if s = w then some (.item (.number v .decimal)) else none
+      | _ => none
 
 end SC
